@@ -135,7 +135,19 @@ def run(cx):
         tid = pa.root(f, act[0].args[1])
         oko = oko and pid[0] == "param" and pid[2] == "pid" and tid[0] == "param" and tid[2] == "tid"
     cx.ob("C15.R2", "return:outputs", oko, "the returned action targets (pid, tid) of the parent act and carries the child's `outputs()`", act[0].loc if act else f.loc())
-    cx.floor("C15.R2", 6)
+    # the outputs that are handed back: Process::outputs is the root task's outputs whatever way the process ended (an
+    # errored / aborted child still has to satisfy the calling act's declared outputs, or its return is refused)
+    from vlib.model import conditions_of
+    from rules.c01 import gdesc
+    po = m.one(r"^acts::scheduler::process::process::Process::outputs$")
+    oc = [c for c in po.calls() if c.q.endswith("Task::outputs")]
+    if not oc:
+        cx.ob("C15.R2", "outputs:root", False, "Process::outputs returns the root task's outputs - no call of Task::outputs found", po.loc())
+    else:
+        conds = sorted({gdesc(m, g) for g in conditions_of(m, po, oc[0].b, mode="value") if not g.neutral})
+        extra = [d for d in conds if not re.search(r"^match\(Process::root\)=Some$|^match\(root\)=Some$|is_some=True$", d)]
+        cx.ob("C15.R2", "outputs:root", not extra, "Process::outputs returns the root task's outputs whatever state the process is in (conditions: %s)%s" % (conds, "" if not extra else " - it also depends on %s" % extra), oc[0].loc)
+    cx.floor("C15.R2", 7)
 
     # ---- R3 ---------------------------------------------------------------------------------------
     eng, _ = engine(cx)
